@@ -119,8 +119,10 @@ func driveC01(c *h.Ctx) error {
 			continue
 		}
 		caseJSON["encoded_len"] = len(b)
-		if _, err := tv.SpecParse(b); err != nil {
+		if ns, err := tv.SpecParse(b); err != nil {
 			c.Fail("C01/not-well-formed", "independent parser rejects the encoding: "+err.Error(), caseJSON)
+		} else if len(ns) != 1 || ns[0].Kind != tv.KStruct {
+			c.Fail("C01/not-well-formed", fmt.Sprintf("the encoding of one message parses as %d top-level items", len(ns)), caseJSON)
 		}
 		out := newMsgLike(msg)
 		derr, p := safeUnmarshal(b, out)
